@@ -480,6 +480,32 @@ func c12Pairs(tier string) int {
 }
 
 func c12Enumerate(tier string, emit explore.Emit) {
+	// the negotiation over an upgraded (TLS) connection: the authentication exchange, the ParameterStatus block and
+	// ReadyForQuery arrive inside the session exactly as they arrive in plaintext (C11's runner)
+	for _, auth := range []string{"", "good", "bad"} {
+		c := c11Case{Cfg: "certs", Behave: "session", Auth: auth, Hist: []c11Letter{{"Query(ok)", pgproto.Query(progRows)}}}
+		emit(explore.Case{Family: "startup", Size: 6, Desc: func() any { return map[string]any{"config": "certificates configured", "negotiation": c.String()} },
+			Run: func() explore.Result {
+				r := c11Run(c)
+				r.Outcome = "negotiated"
+				for i := range r.Violations {
+					r.Violations[i].Clause = "reply-grammar"
+				}
+				return r
+			}})
+	}
+	// start-up keys that are spelled like the server's own parameters: what the client asks for is one thing, what the
+	// server announces (client_encoding UTF8, session_authorization = the connecting user ...) another
+	for _, auth := range []bool{false, true} {
+		for _, pair := range [][2]string{{"client_encoding", "LATIN1"}, {"client_encoding", "SQL_ASCII"}, {"client_encoding", "UTF8"}, {"client_encoding", ""}, {"server_encoding", "LATIN1"},
+			{"is_superuser", "on"}, {"session_authorization", "mallory"}, {"server_version", "0.1"}} {
+			kv := []string{"user", "alice", pair[0], pair[1]}
+			cfg := c12Config{Name: fmt.Sprintf("global=nil version=\"\" auth=%v", auth), Auth: auth}
+			emit(explore.Case{Family: "startup", Size: 5,
+				Desc: func() any { return map[string]any{"config": cfg.Name, "startup_pairs": kv} },
+				Run:  func() explore.Result { return c12Run(cfg, kv) }})
+		}
+	}
 	// long values: start-up values of 63 ... 1200 bytes (user, database, another key) and configured parameters /
 	// version strings of 1000 ... 5000 bytes (around 1 KiB and 4 KiB buffers)
 	for _, auth := range []bool{false, true} {
